@@ -90,6 +90,8 @@ func c04(c *Check) {
 
 	c.Rule("C04/reset-wipes-both-counters", "whoever wipes the chain-side packet state (xibc.ResetStates, used by the upgrade handler) first deletes the packet contract's account, whose storage holds the contract-side send counters: resetting one side alone leaves the two counters apart", 1)
 	resetWipesBoth(c, "C04/reset-wipes-both-counters")
+	c.Rule("C04/send-counters-exported-whole", "the export of the send counters collects every destination: its collecting callback never returns the value that ends IteratePacketSequence (a counter missing from the export restarts at 1 while the contract keeps its own)", 1)
+	collectorsNeverStop(c, "C04/send-counters-exported-whole", []*ssa.Function{c.F(pkKeeper + "Keeper.GetAllPacketSendSeqs")})
 	c.Rule("C04/once", "on every success path of SendPacket exactly one SetNextSequenceSend, one setSequence call and one SetPacketCommitment", 3)
 	sp := c.F(pkKeeper + "Keeper.SendPacket")
 	for _, callee := range []string{"keeper.(Keeper).SetNextSequenceSend", "keeper.(Keeper).CallPacket", "keeper.(Keeper).SetPacketCommitment"} {
@@ -125,6 +127,10 @@ func c05(c *Check) {
 	}
 	c.Trusted = []string{"BaseApp atomicity", "go/ssa"}
 	c.Assume = []string{"guards and bindings were selected by source position at freeze time (xlint/picks/C05.txt, C02.txt)"}
+	c.Rule("C05/ack-proof-binds-the-stored-value", "frozen table (shared with C08): the ETH and BSC storage-proof check accepts only when the value proven under the slot equals the expected acknowledgement hash — a commitment is removed only by a proven acknowledgement of that packet", 10)
+	c.FrozenFiltered("C08", "C05/ack-proof-binds-the-stored-value", func(fn string) bool {
+		return strings.HasSuffix(fn, "verifyMerkleProof") || strings.HasSuffix(fn, "checkProofResult")
+	})
 	c.Rule("C05/acks-survive-genesis", "stored acknowledgements are exported from and re-imported into their own family under the same (src,dst,seq): a restart between writing and relaying an acknowledgement neither removes it nor files it under another packet", 4)
 	packetGenesisBinding(c, "C05/acks-survive-genesis", "Acknowledgements")
 	c.Rule("C05/write-ack", "frozen table: WriteAcknowledgement rejects an empty ack and an already stored ack for the packet's own triple, and stores CommitAcknowledgement(ack parameter) under exactly that triple", 5)
